@@ -105,7 +105,7 @@ HBconvert(int32 aid)
     int        ret_value = SUCCEED;
 
     HEclear();
-    if ((access_rec = HAatom_object(aid)) == NULL) /* get the access_rec pointer */
+    if ((access_rec = HIaid2rec(aid)) == NULL) /* get the access_rec pointer */
         HGOTO_ERROR(DFE_ARGS, FAIL);
 
     /* get the info for the dataset */
